@@ -43,7 +43,7 @@ def content(kind, n, seed):
         ws = _words(rng)
         out = bytearray()
         # build ~64 KB of prose then repeat paragraphs with edits: cheap to generate, compressible, with long-range matches
-        while len(out) < min(n, 200000):
+        while len(out) < min(n, rng.choice([3000, 20000, 20000, 200000])):
             out += rng.choice(ws) + rng.choice([b" ", b" ", b" ", b", ", b". ", b"\n"])
         base = bytes(out)
         while len(out) < n:
